@@ -41,6 +41,15 @@ def split_markdown_hard_breaks(text: str) -> list[str]:
     return _line_break_re.split(text)
 
 
+# A bare URL (GFM extended autolink) at the end of a line: a backslash put directly after it
+# would be read as part of the URL, not as a hard line break.
+_trailing_bare_url_re = re.compile(r"(?:^|\s)(?:https?://|www\.)\S*$")
+
+
+def _ends_with_bare_url(text: str) -> bool:
+    return _trailing_bare_url_re.search(text) is not None
+
+
 def _add_markdown_hard_break_handling(base_wrapper: LineWrapper) -> LineWrapper:
     """
     Augments a LineWrapper to first split the text by Markdown hard breaks,
@@ -68,6 +77,9 @@ def _add_markdown_hard_break_handling(base_wrapper: LineWrapper) -> LineWrapper:
             wrapped_segment = base_wrapper(segment, cur_initial_indent, subsequent_indent)
             if is_last:
                 wrapped_segments.append(wrapped_segment)
+            elif _ends_with_bare_url(wrapped_segment):
+                # Keep the break marker apart from the URL (see `_ends_with_bare_url`).
+                wrapped_segments.append(wrapped_segment + " \\")
             else:
                 wrapped_segments.append(wrapped_segment + "\\")
 
